@@ -113,15 +113,27 @@ func lineChecks(c *core.Case, got []string, a, b *object.Point, h, v int64, ends
 		return dx <= 1 && absI(p.Y-q.Y) <= 1 && absI(p.F-q.F) <= 1
 	}
 	start, _ := ref.ParseExt(ends[0])
+	present := make(map[ref.ID]bool, len(ids))
+	for _, q := range ids {
+		present[q] = true
+	}
 	seen := map[ref.ID]bool{start: true}
 	queue := []ref.ID{start}
 	for len(queue) > 0 {
 		p := queue[0]
 		queue = queue[1:]
-		for _, q := range ids {
-			if !seen[q] && adj(p, q) {
-				seen[q] = true
-				queue = append(queue, q)
+		for dx := int64(-1); dx <= 1; dx++ {
+			for dy := int64(-1); dy <= 1; dy++ {
+				for df := int64(-1); df <= 1; df++ {
+					q := ref.ID{H: p.H, X: p.X + dx, Y: p.Y + dy, V: p.V, F: p.F + df}
+					if fold && (q.X == -1 || q.X == n) { // column 0 and 2^h-1 touch only through the folded 180 degree end point
+						q.X = (q.X + n) % n
+					}
+					if present[q] && !seen[q] && adj(p, q) {
+						seen[q] = true
+						queue = append(queue, q)
+					}
+				}
 			}
 		}
 	}
@@ -225,6 +237,28 @@ func runC06(c *core.Case) {
 		v = []int64{33, 34, 35, 0, 25}[r.Intn(5)]
 	}
 	pa, pb, kind := genSegment(r, h, v, 12)
+	if r.P(0.0004) || (c.Tier == "thorough" && r.P(0.0004)) {
+		// a long line: 4500 .. 20000 voxel widths along the longest axis (implementations may treat long lines differently)
+		pa, pb, kind = genSegment(r, h, v, 3)
+		span := r.Uniform(4500, 20000)
+		wLon := 360 / math.Ldexp(1, int(h))
+		res := math.Ldexp(1, int(25-v))
+		switch r.Intn(3) {
+		case 0:
+			if h >= 15 {
+				pb.lon = math.Max(-180, math.Min(180, pa.lon+span*wLon*float64(2*r.Intn(2)-1)))
+			}
+		case 1:
+			if h >= 16 && math.Abs(pa.lat) < 60 {
+				pb.lat = math.Max(-ref.MaxLat, math.Min(ref.MaxLat, pa.lat+span*wLon*0.6*float64(2*r.Intn(2)-1)))
+			}
+		default:
+			if v >= 14 {
+				pb.alt = math.Max(-(1 << 25), math.Min(1<<25, pa.alt+span*res*float64(2*r.Intn(2)-1)))
+			}
+		}
+		kind = "long-line"
+	}
 	a, e1 := object.NewPoint(pa.lon, pa.lat, pa.alt)
 	b, e2 := object.NewPoint(pb.lon, pb.lat, pb.alt)
 	if e1 != nil || e2 != nil {
